@@ -132,11 +132,20 @@ type propRun struct {
 }
 
 func runProperty(eng *Engine, prop string, opts solveOpts) *propRun {
+	return runPropertyFiltered(eng, prop, opts, nil)
+}
+
+// runPropertyFiltered: when only != nil, obligations of other clauses are generated but not sent to the solvers
+func runPropertyFiltered(eng *Engine, prop string, opts solveOpts, only map[string]bool) *propRun {
 	t0 := time.Now()
 	pr := &propRun{prop: prop, clauses: map[string]*clauseStatus{}}
 	keys := functionsServing(eng, prop)
 	for _, k := range keys {
-		fr := verifyOne(eng, k, opts)
+		o2 := opts
+		if only != nil {
+			o2.only = only
+		}
+		fr := verifyOne(eng, k, o2)
 		pr.funcs = append(pr.funcs, fr)
 		broken := fr.Vacuity == "vacuous" || len(fr.Unsupported) > 0
 		for _, o := range fr.Obls {
@@ -317,12 +326,21 @@ func cmdCheck(args []string) {
 		opts.slowT = 60
 		opts.both = true
 	}
-	pr := runProperty(eng, *prop, opts)
-	known := loadKnownFindings()
 	claimed := map[string]bool{}
 	for _, c := range claims.Clauses {
 		claimed[c] = true
 	}
+	known := loadKnownFindings()
+	only := map[string]bool{}
+	for c := range claimed {
+		only[c] = true
+	}
+	for _, k := range known {
+		if k.Property == *prop {
+			only[k.Clause] = true
+		}
+	}
+	pr := runPropertyFiltered(eng, *prop, opts, only)
 	nObl, nDis := 0, 0
 	for _, c := range claims.Clauses {
 		cs := pr.clauses[c]
